@@ -242,6 +242,47 @@ func c19Case(r *rt.Run, facts []ast.Atom, src factstore.ReadOnlyFactStore, srcKi
 	if pv != nil {
 		r.Violate("panic-lazy", fmt.Sprintf("%v at %s", pv, rt.ShortStack(st)), desc)
 	}
+	// the lazy view as the SOURCE of a write (deterministic and not): the bytes of a deterministic copy must be those
+	// of a deterministic write of the original store, and the view must answer as before afterwards
+	pv, st = rt.Try(func() {
+		lazy, err := c19Lazy(data, format)
+		if err != nil {
+			return
+		}
+		for _, det2 := range []bool{false, true} {
+			copyBytes, err := c19Write(lazy, "plain", det2)
+			r.Add("transitions", 1)
+			if err != nil {
+				r.Violate("write-error-from-lazy-view", err.Error(), desc)
+				return
+			}
+			if det2 {
+				ref, _ := c19Write(src, "plain", true)
+				if !bytes.Equal(ref, copyBytes) {
+					r.Violate("copy-of-lazy-view-differs-"+family, fmt.Sprintf("a deterministic write of the lazy view differs from a deterministic write of the original store:\n%q\nvs\n%q", clip(string(copyBytes), 300), clip(string(ref), 300)), desc)
+					return
+				}
+			}
+			got := atomKeys(mg.Atoms(lazy))
+			if missing, extra := mg.Diff(want, got); len(missing)+len(extra) > 0 {
+				r.Violate("lazy-view-changed-by-being-written-"+family, fmt.Sprintf("after WriteTo(lazy view, deterministic=%v) the view answers differently: missing %s; unexpected %s", det2, mg.Short(missing), mg.Short(extra)), desc)
+				return
+			}
+			perPred := map[ast.PredicateSym]int{}
+			for _, a := range facts {
+				perPred[a.Predicate]++
+			}
+			for p, n := range perPred {
+				if lazy.FactCount(p) != n {
+					r.Violate("lazy-view-changed-by-being-written-"+family, fmt.Sprintf("after WriteTo(lazy view, deterministic=%v): FactCount(%v)=%d want %d", det2, p, lazy.FactCount(p), n), desc)
+					return
+				}
+			}
+		}
+	})
+	if pv != nil {
+		r.Violate("panic-lazy-as-source", fmt.Sprintf("%v at %s", pv, rt.ShortStack(st)), desc)
+	}
 }
 
 func c19(r *rt.Run) {
